@@ -40,16 +40,17 @@ Section Sound.
   Lemma M_nonzero M dk : -1 <= dk < deg M -> M <> zero.
   Proof. intros H E. rewrite E, deg_zero in H. lia. Qed.
 
-  (* a candidate (X, Y) congruent, of small degree, whose determinant with some other pair is M, has Y <> 0 *)
-  Lemma den_nonzero P M dk X Y A B :
+  (* a congruent candidate (X, Y) of small degree that cannot vanish entirely (its determinant with the
+     other pair is M) has Y <> 0 *)
+  Lemma den_nonzero P M dk X Y :
     -1 <= dk < deg M -> pcong M X (mul Y P) -> deg X <= dk ->
-    (sub (mul X A) (mul B Y) = M \/ sub (mul A X) (mul Y B) = M) -> Y <> zero.
+    (X = zero -> Y = zero -> M = zero) -> Y <> zero.
   Proof.
     intros Hdk [c Hc] Hd Hdet E. subst Y.
     assert (HX : X = mul c M) by (rewrite <- Hc; ring).
     assert (Hz : mul c M = zero) by (apply deg_mul_small; rewrite <- HX; lia).
-    rewrite Hz in HX. subst X.
-    apply (M_nonzero M dk Hdk). destruct Hdet as [<-|<-]; ring.
+    rewrite Hz in HX.
+    apply (M_nonzero M dk Hdk). apply Hdet; [exact HX|reflexivity].
   Qed.
 
   Lemma ploop_sound P M dk : -1 <= dk < deg M -> forall fuel N U D0 D Nr Dr,
@@ -64,14 +65,16 @@ Section Sound.
     destruct ((deg N1 <=? dk) || (deg N1 <? 0)) eqn:E1.
     - intros R; inversion R as [[Hf HN HD]]; subst Nr Dr. apply Z.leb_le in Hf.
       split; [exact C0'|]. split; [exact Hf|].
-      eapply den_nonzero; eauto.
+      apply (den_nonzero P M dk N1 D01 Hdk C0' Hf).
+      intros EX EY. rewrite <- Det1, EX, EY. ring.
     - set (Q2 := div U N1). set (U1 := sub U (mul Q2 N1)). set (D1 := sub D (mul Q2 D01)).
       assert (C1' : pcong M U1 (mul D1 P)) by (apply pcong_step; assumption).
       assert (Det2 : sub (mul N1 D1) (mul U1 D01) = M) by (rewrite <- Det1; unfold U1, D1; ring).
       destruct (Z.leb_spec (deg U1) dk) as [L|L].
       + intros R; inversion R; subst Nr Dr.
         split; [exact C1'|]. split; [exact L|].
-        eapply den_nonzero; eauto.
+        apply (den_nonzero P M dk U1 D1 Hdk C1' L).
+        intros EX EY. rewrite <- Det2, EX, EY. ring.
       + destruct (deg U1 >=? 0); [|discriminate].
         apply IH. repeat split; assumption.
   Qed.
@@ -99,3 +102,26 @@ Section Sound.
       + ring.
   Qed.
 End Sound.
+
+(* the statement with its hypotheses spelled out *)
+Definition Poly_ratrecon_sound : Prop :=
+  forall (T : Type) (zero one : T) (add mul sub : T -> T -> T) (opp : T -> T),
+    ring_theory zero one add mul sub opp (@eq T) ->
+    forall (deg : T -> Z) (div : T -> T -> T),
+      deg zero = -1 ->
+      (forall c x : T, deg (mul c x) < deg x -> mul c x = zero) ->
+      forall (P M : T) (dk : Z) (N D : T), 0 <= dk < deg M ->
+        pratrecon (GOps T zero one mul sub deg div) P M dk = Some (true, N, D) ->
+        (exists c, sub N (mul D P) = mul c M) /\ deg N <= dk /\ D <> zero.
+Lemma poly_ratrecon_sound_full : Poly_ratrecon_sound.
+Proof. exact poly_ratrecon_sound. Qed.
+
+(* the hypotheses are satisfiable: Z with deg x = (if x = 0 then -1 else 0) *)
+Example poly_hyps_example :
+  let deg := fun x : Z => if x =? 0 then -1 else 0 in
+  ring_theory 0 1 Z.add Z.mul Z.sub Z.opp (@eq Z) /\ deg 0 = -1 /\
+  (forall c x : Z, deg (c * x) < deg x -> c * x = 0).
+Proof.
+  cbn. split; [exact InitialRing.Zth|]. split; [reflexivity|].
+  intros c x. destruct (Z.eqb_spec (c * x) 0); [auto|]. destruct (Z.eqb_spec x 0); lia.
+Qed.
